@@ -785,9 +785,33 @@ def t2_eps_skewed(draw):
 
 
 @st.composite
+def t2_eps_nearties(draw):
+    """4-10 episodes whose cosine to the query 'apple' differs by a few float32 ulps around 1e-3 (differences ~1e-10,
+    far below any score quantum): the hits that survive the k cut must be the same ones on both paths."""
+    import numpy as np
+
+    n = draw(st.sampled_from([4, 5, 6, 8, 10]))
+    ids = list(draw(st.permutations(world.EP_IDS)))[:n]
+    base = np.float32(draw(st.sampled_from([0.001, 0.0005, 0.002])))
+    eps = []
+    for eid in ids:
+        x = base
+        for _ in range(draw(st.integers(0, 3))):
+            x = np.nextafter(x, np.float32(1.0))
+        vec = [0.0] * len(world.VOCAB)
+        vec[0], vec[1] = float(x), 1.0  # VOCAB[0] == 'apple' is the query direction
+        eps.append({"id": eid, "owner": "A", "text": "note " + eid, "vec_full": vec, "ts": world.NOW_ISO})
+    return eps
+
+
+@st.composite
 def t2_cases(draw):
-    skewed = draw(st.sampled_from([False, False, False, True]))
-    eps = draw(t2_eps_skewed()) if skewed else draw(st.one_of(t2_eps(), t2_eps(), t2_eps(), world.episode_lists().filter(lambda e: len(e) >= 2)))
+    mode = draw(st.sampled_from(["plain", "plain", "plain", "plain", "skewed", "skewed", "nearties"]))
+    skewed = mode == "skewed"
+    if mode == "nearties":
+        eps = draw(t2_eps_nearties())
+    else:
+        eps = draw(t2_eps_skewed()) if skewed else draw(st.one_of(t2_eps(), t2_eps(), t2_eps(), world.episode_lists().filter(lambda e: len(e) >= 2)))
     graphs = {}
     for gid in draw(st.lists(st.sampled_from(["g1", "g2"]), max_size=2, unique=True)):
         graphs[gid] = draw(world.graph_specs(max_nodes=5, max_edges=3))
@@ -822,6 +846,13 @@ def t2_cases(draw):
         t2["k_retrieval"] = draw(st.sampled_from([3, 5, 6, 10]))
         t2["sim_threshold"] = draw(st.sampled_from([0.0, 0.1]))
         t2["owner_scope"] = "any"
+    if mode == "nearties":
+        text = world.VOCAB[0]
+        t2["k_retrieval"] = draw(st.sampled_from([1, 2, 3]))
+        t2["sim_threshold"] = draw(st.sampled_from([0.0, -1.0]))
+        t2["owner_scope"] = "any"
+        t2.pop("quality", None)
+        layers = "none"
     node_ids = sorted({nd["id"] for s in graphs.values() for nd in s["nodes"]})
     t1_ids = draw(st.lists(st.sampled_from(node_ids), max_size=3, unique=True)) if node_ids else []
     return {"eps": eps, "graphs": graphs, "t2": t2, "agent": agent, "text": text, "t1_ids": t1_ids,
